@@ -45,6 +45,7 @@
 package interp // import "golang.org/x/tools/go/ssa/interp"
 
 import (
+	"runtime/debug"
 	"strings"
 	"sync"
 	"fmt"
@@ -575,6 +576,12 @@ func runFrame(fr *frame) {
 		}
 		if fr.i.sched.aborted {
 			panic(pathAbort{})
+		}
+		if re, ok := r.(runtime.Error); ok {
+			if _, isRt := re.(rtErr); !isRt && !isTargetRuntimeError(re) {
+				// a host run-time error outside the modelled operations is an engine bug
+				panic(engineError{"engine runtime error: " + re.Error() + " in " + fr.fn.String() + "\n" + string(debug.Stack())})
+			}
 		}
 		fr.panicking = true
 		fr.panic = r
